@@ -265,6 +265,19 @@ def streams(rng, tier, boost):
         out.append(('scan-soup', dict(kind='scan', which=rand_which(rng, 2), toks=soup, rendered=False)))
     for i in range((500 if tier == 'quick' else 6000) * boost):
         out.append(('programs', dict(kind='prog', prog=rand_prog(rng, rng.choice([1, 2, 2, 3, 3, 4])))))
+    # \newif switches whose name contains "if" again (odd ids: \ifzsif..), set and tested, also through a macro body
+    for n in (0, 1, 3):
+        for first in (True, False):
+            out.append(('switch-names', dict(kind='prog', prog=[
+                ['newsw', n], ['setsw', n, first], ['cond', ['switch', n], [['word', 1]], [['word', 2]]],
+                ['setsw', n, not first], ['cond', ['switch', n], [['word', 3]], [['word', 4]]],
+                ['group', [['setsw', n, first]], 'brace'], ['cond', ['switch', n], [['word', 5]], [['word', 6]]]])))
+    # \ifx between parameterless macros: equal bodies, one body a proper prefix of the other (both orders), empty against non-empty
+    bodies = {60: [['word', 1]], 61: [['word', 1], ['word', 2]], 62: [], 63: [['word', 1], ['word', 2]], 64: [['word', 3]]}
+    defs = [['def', False, k, 0, None, b, {'kind': 'def'}] for k, b in sorted(bodies.items())]
+    for a in sorted(bodies):
+        for b in sorted(bodies):
+            out.append(('ifx-bodies', dict(kind='prog', prog=defs + [['cond', ['ifxmac', a, b], [['word', 7]], [['word', 8]]]])))
     # an undefined control sequence in a branch that is skipped stays undefined: every way of skipping, the skipped text starts with
     # the undefined name directly after the test (a number ended by one blank included), then \ifdefined asks for that name
     skips = [(['num', ['lit', 2, 'plain', ''], '<', ['lit', 1, 'plain', ''], 'space'], True), (['num', ['lit', 1, 'plain', ''], '<', ['lit', 2, 'plain', ''], 'space'], False),
